@@ -296,6 +296,12 @@ def load_prop(prop_id):
     spec = importlib.util.spec_from_file_location("prop_" + prop_id, p)
     mod = importlib.util.module_from_spec(spec)
     spec.loader.exec_module(mod)
+    ov = os.path.join(VERIF, "tools", "props", "_hist.py")
+    if os.path.exists(ov):
+        sp2 = importlib.util.spec_from_file_location("prop_overlay_hist", ov)
+        m2 = importlib.util.module_from_spec(sp2)
+        sp2.loader.exec_module(m2)
+        m2.apply(mod, prop_id)
     return mod
 
 
